@@ -618,7 +618,7 @@ def position_values(t, F):
                 return ("pos", int.from_bytes(b[0:1], "little", signed=True), int.from_bytes(b[1:2], "little", signed=True))
         except Exception:
             pass
-    return tuple(position_values(x, F) if isinstance(x, tuple) else x for x in t)
+    return tuple(position_values(x, F) if isinstance(x, tuple) and not isinstance(x, hir.PK) else x for x in t)
 
 
 def summarize_with_returns(fn, F):
@@ -716,7 +716,7 @@ def position_constructor_cases(F, name):
             if a is not None and b is not None:
                 return ("pos", a, b)
         if isinstance(t, tuple):
-            return tuple(ctor(x) if isinstance(x, tuple) else x for x in t)
+            return tuple(ctor(x) if isinstance(x, tuple) and not isinstance(x, hir.PK) else x for x in t)
         return t
     if name in ("add", "add_unsafe"):
         for r, c in ((0, 0), (3, 4), (7, 7), (0, 7)):
@@ -836,6 +836,10 @@ def eval_move_text(nf, variant, env, D):
             return fv[t[2]]
         return tuple(tr(x) if isinstance(x, tuple) else x for x in t)
     env2 = {tr(k): tr(v) for k, v in env.items()}
+    # Position::row(p) / col(p) are p.0 / p.1: an assumption on one spelling holds for the other
+    for k, v in list(env2.items()):
+        if k[:1] == ("call",) and isinstance(k[1], str) and k[1].endswith(("Position::row", "Position::col")) and len(k[2]) == 1:
+            env2.setdefault(("field", k[2][0], "0" if k[1].endswith("row") else "1"), v)
     vals = dict(fv)
     for f in list(fv):
         if fv[f] in env2:
